@@ -108,12 +108,13 @@ func runC09Benign(rc *runCtx) *RunResult {
 	}
 	// reader behaviours: always the two extreme shapes, plus a drawn one
 	plans := []struct {
-		br   bool
+		br   int
 		plan simio.ReadPlan
 		name string
 	}{
-		{true, simio.NoReadFaults(), "bytereader"},
-		{false, simio.ReadPlan{FailAt: -1, Chunks: []int{1}}, "plain-1byte"},
+		{simio.ShapeByteReader, simio.NoReadFaults(), "bytereader"},
+		{simio.ShapePlain, simio.ReadPlan{FailAt: -1, Chunks: []int{1}}, "plain-1byte"},
+		{simio.ShapeFile, simio.ReadPlan{FailAt: -1, Chunks: []int{4093, 5, 4096}}, "file-like(seekable, chunks 4093/5/4096)"},
 	}
 	dp := simio.NoReadFaults()
 	nc := 1 + int(t.Uint(5))
@@ -124,12 +125,12 @@ func runC09Benign(rc *runCtx) *RunResult {
 	if t.Chance(400) {
 		dp.ZeroEvery = 2 + int(t.Uint(5))
 	}
-	dbr := t.Chance(500)
+	dbr := int(t.Uint(simio.NumShapes))
 	plans = append(plans, struct {
-		br   bool
+		br   int
 		plan simio.ReadPlan
 		name string
-	}{dbr, dp, fmt.Sprintf("drawn(bytereader=%v chunks=%v eofWithData=%v zeroEvery=%d)", dbr, dp.Chunks, dp.EOFWithData, dp.ZeroEvery)})
+	}{dbr, dp, fmt.Sprintf("drawn(shape=%v chunks=%v eofWithData=%v zeroEvery=%d)", dbr, dp.Chunks, dp.EOFWithData, dp.ZeroEvery)})
 	for _, pl := range plans {
 		rc.inc("evals", 1)
 		if pl.plan.EOFWithData {
@@ -143,7 +144,7 @@ func runC09Benign(rc *runCtx) *RunResult {
 		}
 		var dv any
 		var derr error
-		if pv := guard("decode:"+ct.name, func() { dv, derr = ct.decode(simio.NewReader(enc, pl.plan, pl.br)) }); pv != nil {
+		if pv := guard("decode:"+ct.name, func() { dv, derr = ct.decode(simio.NewShapedReader(enc, pl.plan, pl.br)) }); pv != nil {
 			res.Viol = pv
 			return res
 		}
